@@ -275,8 +275,27 @@ def check(case):
     return {"vm": check_vm, "gf": check_gf, "stars": check_stars, "taylor": check_taylor, "yaml": check_yaml}[case["family"]](case)
 
 
+def many_jump_types():
+    """Green-function calculators with more than ten symmetry-unique jump types and a different rate for each (the HDF5 group
+    then holds members jump-0 ... jump-11, whose name order differs from their numerical order): the generic strategies stop at
+    the fourth neighbour shell"""
+    out = []
+    for rec, k in (({"name": "aP-bravais", "lattice": [[1.0, 0.31, 0.17], [0.0, 1.13, 0.23], [0.0, 0.0, 0.94]], "basis": [[[0., 0., 0.]]]}, 12),
+                   ({"name": "ob-2site", "lattice": [[1.0, 0.37], [0.0, 1.21]], "basis": [[[0., 0.], [0.37, 0.41]]]}, 12)):
+        crys = cs.build(rec)
+        sl, jn, cut = nw.network(crys, 0, k, 0)
+        if len(jn) < 11 or not nw.gf_ok(crys, 0, sl, jn):
+            raise HarnessError("many-jump-type family: %s has %d jump types" % (rec["name"], len(jn)))
+        d = crys.dim
+        out.append({"family": "gf", "recipe": rec, "chem": 0, "k": k, "pre": [1.0 + 0.3 * w for w in range(len(sl))], "ene": [0.2 * w for w in range(len(sl))],
+                    "preT": [1.0 + 0.1 * t for t in range(len(jn))], "eneT": [1.0 + 0.17 * t for t in range(len(jn))],
+                    "ends": [[0, len(crys.basis[0]) - 1, [1, 0, 2][:d]], [0, 0, [2, 1, 0][:d]], [0, 0, [0, 0, 0][:d]], [0, 0, [1, 1, 1][:d]]], "alpha": 1.0, "gop": 0})
+    return out
+
+
 def run(ctx):
     ctx.corpus(check)
+    ctx.cases([c for i, c in enumerate(many_jump_types()) if ctx.mine(i)], check, label="gf_many_jump_types")
     ctx.given(cases(), check, quick=160, thorough=1200, shrink=not ctx.quick)
 
 
